@@ -150,6 +150,37 @@ def run(chk):
           "when the node's cache says 'not a local' the scope stack is not searched at all: a variable of that name introduced later (eval(), use()) is ignored and the global / function is returned")
     r4.require(1, "obligation")
 
+    # ------------------------------------------------------------------ R4.6 global before function
+    r6 = chk.rule("R4.6", "get_object looks the name up among the functions only after the search of the global objects for this name has failed, on every path",
+                  "else the global, else the function: a global declared after a node first resolved the name to a function is found when the node is evaluated again")
+    fl = [n for n in walk(f["body"]) if n.get("k") == "call" and n.get("name") == "get_function_object_int"]
+    r6.anchor(len(fl) == 1, "the function lookup in get_object")
+    gvids = {v.get("vid") for d in walk(f["body"]) if d.get("k") == "decl" for v in d["vars"] if v.get("init") and any(x is glob[0] for x in walk(v["init"]))}
+
+    def global_miss(cond, truth):
+        c = strip_casts(cond)
+        if c.get("k") == "call" and c.get("op") in ("!=", "==") and len(c.get("args", [])) == 2:
+            a, b = (strip_casts(x) for x in c["args"])
+        elif c.get("k") == "binop" and c.get("op") in ("!=", "=="):
+            a, b = strip_casts(c["lhs"]), strip_casts(c["rhs"])
+        else:
+            return False
+        if (c["op"] == "!=") != (truth is False):
+            return False
+        for x, y in ((a, b), (b, a)):
+            is_itr = (x.get("k") == "ref" and x.get("vid") in gvids) or x is glob[0]
+            is_end = y.get("k") == "call" and y.get("name") == "end" and y.get("obj") is not None and "m_global_objects" in expr_str(prog, f, y["obj"])
+            if is_itr and is_end:
+                return True
+        return False
+
+    ok6 = any(global_miss(c, t) for c, t in flow.facts(fl[0]))
+    r6.ob("chaiscript::detail::Dispatch_Engine::get_object/the function lookup is reached only with 'm_global_objects.find(name) == end()' established", ok6,
+          "%s:%d" % (f["file"], fl[0]["l"]), f["q"],
+          "a path reaches get_function_object_int without the global map having been searched for the name (or without the miss being tested): a global of that name is "
+          "passed over in favour of the function")
+    r6.require(1, "obligation")
+
     # ------------------------------------------------------------------ R4.5 the cached-local path
     r5 = chk.rule("R4.5", "on the cached-local path a value is returned only from the exact remembered slot (after the name test) or from a complete re-resolution, and only after the scopes nearer than the remembered one were checked for the name",
                   "a remembered position never wins over an inner variable of the same name, and a stale position falls back to the innermost-first search")
